@@ -687,3 +687,69 @@ def deflate_complete(prog, chk, rid):
         c02._pending_output(prog, chk, rid, zc, 'deflate')
     except AnalysisBroken as e:
         chk.fail_broken('%s: %s' % (rid, e))
+
+
+_ENV_DEPENDENT = ('mktime', 'localtime', 'localtime_r', 'localtime_s', 'tzset', 'setlocale', 'getenv', 'secure_getenv',
+                  'strtod', 'strtof', 'atof', 'wcsftime', 'strptime', 'ctime', 'asctime')
+
+
+def environment_independent(prog, chk, rid, floor_functions=20):
+    """What is stored and what is read back does not depend on the process environment: no repository function
+    calls a C library routine whose result depends on the time zone (`mktime`, `localtime*`, `ctime`), the locale
+    (`strtod`, `atof`, `setlocale`, `strptime`) or an environment variable.  A formatter that writes UTC and a
+    parser that reads local time agree only where the two coincide - which is where the tests run."""
+    n = 0
+    for f in prog.functions.values():
+        if f.body is None or f.is_pattern or not prog.in_repo(f.file) or '/src/' not in (f.file or ''):
+            continue
+        n += 1
+        for x in walk(f.body):
+            if x.get('kind') != 'CallExpr' or not children(x):
+                continue
+            ref = strip(children(x)[0]).get('referencedDecl') or {}
+            if ref.get('name') in _ENV_DEPENDENT and ref.get('kind') == 'FunctionDecl':
+                short = '::'.join((f.qualname or '').split('::')[-2:])
+                chk.violation(rid, '%s|calls %s' % (short, ref['name']), locstr(x),
+                              '%s calls %s(), whose result depends on the time zone / locale / environment of the '
+                              'process: a value converted there is stored or read back differently on another machine '
+                              'or under another TZ' % (short, ref['name']))
+    if n < floor_functions:
+        chk.fail_broken('%s: only %d repository functions scanned' % (rid, n))
+    chk.ok(rid, '%d repository functions call no time-zone / locale / environment dependent C routine' % n, site='env')
+    return n
+
+
+def bytes_read_unsigned(prog, chk, rid):
+    """A byte taken from a blob means 0..255: wherever a `char` / `signed char` obtained by dereferencing or
+    indexing a pointer is converted to a wider integer, the conversion goes through an unsigned 8-bit type.  A
+    plain `char` is signed on x86, so `std::ptrdiff_t n = chars[0]` reads a length byte of 128..255 as negative."""
+    n = 0
+    hits = 0
+    for f in prog.functions.values():
+        if f.body is None or f.is_pattern or not prog.in_repo(f.file) or '/engine/' not in (f.file or ''):
+            continue
+        n += 1
+        for x in walk(f.body):
+            if x.get('kind') != 'ImplicitCastExpr' or x.get('castKind') != 'IntegralCast' or not children(x):
+                continue
+            dst = (x.get('type') or '').replace('const ', '').strip()
+            src_node = children(x)[0]
+            src = (src_node.get('type') or '').replace('const ', '').strip()
+            if src not in ('char', 'signed char') or dst in ('char', 'signed char', 'unsigned char', 'uint8_t', 'std::uint8_t', 'bool'):
+                continue
+            y = strip(src_node, explicit=False)
+            if y.get('kind') not in ('ArraySubscriptExpr', 'UnaryOperator'):
+                continue
+            if y.get('kind') == 'UnaryOperator' and y.get('opcode') != '*':
+                continue
+            # promotions inside a comparison with a character literal are not reads of a quantity
+            hits += 1
+            short = '::'.join((f.qualname or '').split('::')[-2:])
+            chk.violation(rid, '%s|signed byte widened to %s' % (short, dst), locstr(x),
+                          '%s widens a (signed) char read through a pointer to %s without going through an unsigned '
+                          '8-bit type: a byte of 128..255 becomes negative' % (short, dst))
+    if n < 20:
+        chk.fail_broken('%s: only %d functions scanned' % (rid, n))
+    if not hits:
+        chk.ok(rid, '%d functions under src/djinterop/engine: no signed byte read through a pointer is widened' % n, site='bytes')
+    return n
